@@ -407,7 +407,17 @@ def check_ttl_plumbing(rep, fl):
             rep.bad("R03.4", fl, b, "forward", "%s does not forward to the insert path" % meth)
             continue
         a = [norm(x) for x in b.call_args(tgt[1])]
-        ttl_a = a[4] if len(a) > 4 else None
+        # arguments by the callee's parameter names (a reordered private signature is the same call)
+        cb_ = fl.cache_fn(tgt[0], required=False)
+        byname = {}
+        if cb_ is not None:
+            cb0 = facts.body(strip_generics(cb_.raw["root"]), required=False) or cb_   # the shell of an async fn carries the names
+            for i_ in range(len(a)):
+                nm_ = cb0.local_name.get(i_ + 1)
+                if nm_:
+                    byname[nm_] = a[i_]
+        ttl_a = byname.get("ttl", a[4] if len(a) > 4 else None) if ("ttl" in byname or "only_update" not in byname) else None
+        flag_a = byname.get("only_update", a[5] if len(a) > 5 else None)
         if ttl_a is None:
             # wrapper without ttl parameter forwarding to another wrapper without ttl: fine (checked there)
             rep.ok("R03.4", fl, b, "forward->%s" % tgt[0], "forwards to %s" % tgt[0])
@@ -415,9 +425,9 @@ def check_ttl_plumbing(rep, fl):
         okt = (ttl_a == want_ttl) if want_ttl != "ZERO" else (ttl_a[0] in ("cstr", "named") and "ZERO" in str(ttl_a))
         okf = True
         if tgt[0] == "try_insert_in":
-            okf = a[5] == ("const", want_flag, "bool")
+            okf = flag_a == ("const", want_flag, "bool")
         rep.check(okt and okf, "R03.4", fl, b, "forward->%s" % tgt[0], "%s passes ttl=%s%s" % (meth, want_ttl if want_ttl == "ZERO" else "its parameter", ", only_update=%s" % bool(want_flag) if tgt[0] == "try_insert_in" else ""),
-                  "%s passes ttl=%s only_update=%s" % (meth, show(ttl_a), show(a[5]) if len(a) > 5 else "-"), loc=tgt[1]["sp"])
+                  "%s passes ttl=%s only_update=%s" % (meth, show(ttl_a), show(flag_a) if flag_a is not None else "-"), loc=tgt[1]["sp"])
 
 
 def keep_aspects(rep, fl, fn, table, prop=None):
@@ -1000,7 +1010,8 @@ def check_tick(rep, fl):
         org = it_.origin()
         sweeper = fl.cleanup.split("::")[-1]
         from_sweeper = any(is_call(c, sweeper) for c in calls_in(org))
-        ok = from_sweeper and it_.is_elem(hf.call_args(et)[1]) and it_.is_elem(hf.call_args(pt)[1]) and it_.every_round([ebi]) \
+        pe_arg = it_.canon(hf.call_args(pt)[1])   # prepare_evict(&item) or prepare_evict(item.index)
+        ok = from_sweeper and it_.is_elem(hf.call_args(et)[1]) and pe_arg in (("elem",), ("field", ("elem",), "index")) and it_.every_round([ebi]) \
             and must_pass_through(hf, [pbi], from_bi=it_.some, exits=[ebi]) and it_.once_per_round(ebi)
     rep.check(ok, "R05.7", fl, h, "on_evict per item", "every swept item goes through prepare_evict and callback.on_evict exactly once",
               "swept items are not handed to on_evict exactly once each")
@@ -1075,7 +1086,9 @@ def check_tick(rep, fl):
     f = None
     for bi, si, st, e in agg_nodes(new, "CacheProcessor"):
         f = agg_fields(e)
-    rep.check(f is not None and f.get("cleanup_duration") == V("cleanup_duration"), "R05.7", fl, new, "cleanup_duration field", "CacheProcessor::new stores its cleanup_duration argument", "CacheProcessor::new drops cleanup_duration")
+    # (the parameter is found by its type - the one Duration argument - so that a renamed parameter is the same rule)
+    durs = [V(new.local_name[i_]) for i_ in range(1, new.arg_count + 1) if i_ in new.local_name and new.locals[i_]["ty"].endswith("time::Duration")]
+    rep.check(f is not None and len(durs) == 1 and f.get("cleanup_duration") == durs[0], "R05.7", fl, new, "cleanup_duration field", "CacheProcessor::new stores its cleanup_duration argument", "CacheProcessor::new drops cleanup_duration")
 
 
 # ----------------------------------------------------------------------------------------
